@@ -409,7 +409,7 @@ def fixture_notebooks():
 # ------------------------------------------------------------------ targeted three-way scenarios
 SCENARIOS = ['concurrent-insert', 'concurrent-insert', 'delete-vs-edit', 'same-line', 'different-lines', 'both-outputs', 'both-metadata',
              'insert-next-to-edit', 'delete-vs-transient', 'same-change', 'both-nbmeta', 'both-attachments', 'minor', 'replace-vs-transient', 'remove-output-vs-transient', 'dup-around-shared',
-             'replace-vs-insert', 'two-conflict-regions', 'output-mixed-keys', 'minor-down', 'remove-key-vs-transient', 'stale-conflict-record']
+             'replace-vs-insert', 'two-conflict-regions', 'output-mixed-keys', 'minor-down', 'remove-key-vs-transient', 'stale-conflict-record', 'meta-nested-mixed', 'same-inline-edit-plus-insert']
 
 
 def similar_cell(rng, c, used):
@@ -437,6 +437,13 @@ def similar_cell(rng, c, used):
                   'scrolled': (rng.choice([True, 'auto']), False)}[key]
         c['metadata'] = dict(c['metadata'], **{key: va})
         d['metadata'] = dict(d['metadata'], **{key: vb})
+    if d['cell_type'] != 'code' and rng.random() < 0.4:
+        # similar cells whose attachments differ: other names, or one name with other content
+        c['attachments'] = {'logo.png': {'image/png': B64[0]}, 'shared.png': {'image/png': B64[1]}}
+        d['attachments'] = rng.choice([{'plot.png': {'image/png': B64[2]}}, {'logo.png': {'image/png': B64[2]}},
+                                       {'shared.png': {'image/png': B64[1]}, 'extra.png': {'image/png': B64[0]}}])
+        if rng.random() < 0.5:
+            c['attachments'], d['attachments'] = d['attachments'], c['attachments']
     return d
 
 
@@ -611,6 +618,39 @@ def triple_scenario(rng, minor=None, first=None):
             mb['owner'] = 'base'
             ml['owner'] = 'local'
             mr['owner'] = 'remote'
+        elif sc == 'meta-nested-mixed':
+            # inside one metadata dict: the sides edit different fields of the same sub-dict (no conflict, two decisions
+            # with patch entries on one key once a strategy lifts them) and conflict on another key of that dict
+            metas = [(base['metadata'], l['metadata'], r['metadata'])] + \
+                    [(base['cells'][i]['metadata'], l['cells'][i]['metadata'], r['cells'][i]['metadata']) for i in common]
+            mb, ml, mr = rng.choice(metas)
+            for m in (mb, ml, mr):
+                m['kernel'] = {'display_name': 'Python 3', 'name': 'python3', 'env': {'a': 1, 'b': 2}}
+                m['lang'] = {'version': '3.8.1'}
+            ml['kernel']['display_name'] = 'Python 3 (local)'
+            mr['kernel']['name'] = 'py-remote'
+            if rng.random() < 0.5:
+                ml['kernel']['env']['a'] = 10
+                mr['kernel']['env']['b'] = 20
+            ml['lang']['version'] = '3.9.' + str(rng.randrange(9))
+            mr['lang']['version'] = '3.10.' + str(rng.randrange(9))
+        elif sc == 'same-inline-edit-plus-insert':
+            # both sides make the same in-line edit at the start of one line (often line 0); one side also inserts a
+            # line right at that position: an agreed character-level decision on a line path next to a line-level one
+            cands = [i for i in common if len(base['cells'][i]['source'].splitlines()) >= 2]
+            if cands:
+                i = rng.choice(cands)
+                lines = base['cells'][i]['source'].splitlines(True)
+                k = 0 if rng.random() < 0.5 else rng.randrange(len(lines))
+                if len(lines[k].rstrip('\r\n')) >= 4:
+                    body = lines[k].rstrip('\r\n')
+                    new = rng.choice([lines[k][2:], lines[k][2:], '  ' + lines[k], body + '  # same tweak' + lines[k][len(body):],
+                                      body[:len(body) // 2] + '_' + body[len(body) // 2:] + lines[k][len(body):]])
+                    both = lines[:k] + [new] + lines[k + 1:]
+                    a, b_ = (l, r) if rng.random() < 0.5 else (r, l)
+                    a['cells'][i]['source'] = ''.join(both)
+                    ins = rng.choice(['inserted = %d\n' % rng.randrange(99), '# a new first line\n'])
+                    b_['cells'][i]['source'] = ''.join(lines[:k] + [ins, new] + lines[k + 1:]) if rng.random() < 0.7 else ''.join(both)
         elif sc == 'both-attachments':
             cands = [i for i in common if l['cells'][i]['cell_type'] != 'code']
             if cands:
